@@ -169,23 +169,22 @@ def run_case(job):
             data = E.splice_preset(data, pd, dsz, rng)
         R = E.encode(plan, data, bias=0, seed=job["seed"])
         res["encs"] += 1
-        if inp.get("padcut"):
-            # second pass: an output grant that ends after `padcut` bytes of Index Padding (offsets from the first pass)
+        if inp.get("pad") is not None:
+            # Index Padding jobs.  The guard below is about the harness' own choice of input only: when the first pass is
+            # not a valid file that decodes to the input (possible with a broken encoder), nothing is second-guessed here -
+            # the output goes down the normal judge path and is reported there.
             from harness.glue import xz as gxz
             P0 = gxz.parse(R.out, collect=None)
+            sound = P0.verdict == "ok" and P0.output == data
             pe = [(o, ln) for nm, o, ln, v in P0.events if nm.endswith("index.padding")]
             ie = [o for nm, o, ln, v in P0.events if nm.endswith("index.indicator")]
-            if not pe or pe[0][1] != inp["pad"] or inp["padcut"] >= pe[0][1]:
-                raise RuntimeError("Index Padding of %r is %r, wanted %d bytes" % (inp, pe, inp["pad"]))
-            base = ie[0] if plan["entry"] == "index_enc" else 0
-            R = E.encode(dict(plan, ogrants=[pe[0][0] - base + inp["padcut"]]), data, bias=0, seed=job["seed"])
-            res["encs"] += 1
-        elif inp.get("pad") is not None:
-            from harness.glue import xz as gxz
-            P0 = gxz.parse(R.out, collect=None)
-            pe = [ln for nm, o, ln, v in P0.events if nm.endswith("index.padding")]
-            if not pe or pe[0] != inp["pad"]:
-                raise RuntimeError("Index Padding of %r is %r, wanted %d bytes" % (inp, pe, inp["pad"]))
+            if sound and (not pe or pe[0][1] != inp["pad"]):
+                raise RuntimeError("harness input choice: Index Padding of %r is %r, wanted %d bytes" % (inp, pe, inp["pad"]))
+            if sound and inp.get("padcut"):
+                # second pass: an output grant that ends after `padcut` bytes of Index Padding
+                base = ie[0] if plan["entry"] == "index_enc" else 0
+                R = E.encode(dict(plan, ogrants=[pe[0][0] - base + inp["padcut"]]), data, bias=0, seed=job["seed"])
+                res["encs"] += 1
         res["enclen"] = len(R.out); res["consumed"] = R.consumed; res["kind"] = R.kind
         libret, libout = E.lib_decode(R)
         ex = E.lz_executions(R, libret, libout, mode=job.get("mode"))
@@ -225,7 +224,23 @@ def run_case(job):
     except E.EncError as x:
         res["errors"].append((x.key, x.detail))
     except Exception as x:
-        res["errors"].append(("machinery", traceback.format_exc()[-3000:]))
+        tb = traceback.format_exc()[-3000:]
+        # An exception of the analysis code is a machinery failure only if the encoder's output is sound; output that
+        # liblzma's own decoder does not turn back into the input is the encoder's fault and is reported as such.
+        sound = None
+        try:
+            R_ = locals().get("R")
+            if R_ is not None and getattr(R_, "out", None) is not None:
+                lr, lo = E.lib_decode(R_)
+                sound = (lr == "STREAM_END" and lo == R_.data[:R_.consumed])
+        except Exception:
+            sound = False
+        if sound is False:
+            res["errors"].append(("enc:unanalysable:%s" % job["plan"]["entry"],
+                                  "the encoder's output does not decode to the input and cannot be analysed: plan=%r input=%r\n%s" % (
+                                      job["plan"], job["inp"], tb)))
+        else:
+            res["errors"].append(("machinery", tb))
     res["wall"] = time.time() - t0
     return res
 
